@@ -153,7 +153,15 @@ impl Relaxation for TRelax {
         r
     }
     fn relax(&self, src: &St, dst: &St, merged: &St, d: Decision, cost: isize) -> isize {
-        let r = cost.saturating_add(self.inst.slack.saturating_mul(merged.0.len() as isize - dst.0.len() as isize));
+        // the relaxed cost READS every argument: the last term is zero whenever the library passes dst = transition(src, d), as the Relaxation
+        // contract says (then this is the model's cost + slack * (|merged| - |dst|)); swapped or foreign states make the bound unsound (seen by C06 / C08)
+        let mut t: Vec<u32> = vec![];
+        for b in src.0.iter() {
+            for (val, tgt, _) in self.inst.trans[d.variable.0][*b as usize].iter() { if *val == d.value { t.push(*tgt); } }
+        }
+        t.sort(); t.dedup();
+        let r = cost.saturating_add(self.inst.slack.saturating_mul(merged.0.len() as isize - dst.0.len() as isize))
+                    .saturating_add(self.inst.slack.saturating_mul(t.len() as isize - dst.0.len() as isize));
         self.log(format!("RELAX {} {} {} {}={} {} -> {}", st_str(src), st_str(dst), st_str(merged), d.variable.0, d.value, cost, r));
         r
     }
